@@ -501,7 +501,9 @@ pub fn rand_dest(r: &mut Rng, used: &mut std::collections::BTreeSet<String>, idx
             continue;
         }
         used.insert(path.clone());
-        return if r.chance(1, 3) { format!(".{path}") } else { path };
+        let spelled = if r.chance(1, 3) { format!(".{path}") } else { path };
+        // now and then the same destination with one separator doubled ("/etc//x", ".//a/b")
+        return if r.chance(1, 8) { respell_with_double_separator(&spelled, r) } else { spelled };
     }
 }
 
